@@ -396,3 +396,140 @@ Proof.
   intros Hf. pose proof (at_most_once evs (final_state sys_init pre) i (OI_reachable pre sys_init OI_init) Hf) as H.
   assert (cap (final_state sys_init pre) i <= 1)%nat by (unfold cap; destruct (alookup i _) as [o|]; [destruct (o_phase o)|]; lia). lia.
 Qed.
+
+(* ---- the phases of an operation future only move forward ----------------------------------------------------------------- *)
+Definition rank (p : phase) : nat := match p with NotStarted => 0 | Wait1 => 1 | Wait2 => 2 | Finished => 3 end.
+Definition prank (s : sys) (i : N) : nat := match alookup i (ops s) with Some o => rank (o_phase o) | None => 4 end.
+Lemma prank_phases s s' i : phases s' = phases s -> prank s' i = prank s i.
+Proof.
+  unfold phases, prank. intros H.
+  assert (L : forall l : list (N * op), option_map o_phase (alookup i l) = alookup i (map (fun e => (fst e, o_phase (snd e))) l)).
+  { induction l as [|[k a] l IH]; cbn [map alookup fst snd]; [reflexivity|]. destruct (k =? i); [reflexivity|exact IH]. }
+  pose proof (L (ops s')) as H1. pose proof (L (ops s)) as H2. rewrite H in H1. rewrite <- H1 in H2.
+  destruct (alookup i (ops s')) as [o'|]; destruct (alookup i (ops s)) as [o|]; cbn in H2; try discriminate; [|reflexivity].
+  inversion H2 as [H3]. rewrite H3. reflexivity.
+Qed.
+
+Section LeafRank.
+Variables (s : sys) (i j : N) (o : op).
+Hypothesis Hl : alookup j (ops s) = Some o.
+Lemma rank_finish X r : ops X = ops s -> (prank s i <= prank (fst (finish X j o r)) i)%nat.
+Proof.
+  intros Ho. cbn [finish fst]. unfold prank. cbn [put_op ops set_ops]. rewrite Ho. destruct (N.eq_dec j i) as [E|E].
+  - rewrite <- E, Hl, alookup_aset_same. cbn [o_phase rank]. destruct (o_phase o); cbn; lia.
+  - rewrite alookup_aset_other by (intros E'; apply E; symmetry; exact E'). lia.
+Qed.
+Lemma rank_pending X ph pid : ops X = ops s -> (rank (o_phase o) <= rank ph)%nat ->
+  (prank s i <= prank (fst (pending X j o ph pid)) i)%nat.
+Proof.
+  intros Ho Hr. cbn [pending fst]. unfold prank. cbn [put_op ops set_ops]. rewrite Ho. destruct (N.eq_dec j i) as [E|E].
+  - rewrite <- E, Hl, alookup_aset_same. cbn [o_phase]. exact Hr.
+  - rewrite alookup_aset_other by (intros E'; apply E; symmetry; exact E'). lia.
+Qed.
+End LeafRank.
+
+Lemma first_poll_rank s i j o : alookup j (ops s) = Some o -> o_phase o = NotStarted ->
+  (prank s i <= prank (fst (first_poll s j o)) i)%nat.
+Proof.
+  intros Hl Hp. unfold first_poll. cbv zeta.
+  assert (F : forall X r, ops X = ops s -> (prank s i <= prank (fst (finish X j o r)) i)%nat) by (intros; apply (rank_finish s i j o Hl); assumption).
+  assert (P : forall X pid, ops X = ops s -> (prank s i <= prank (fst (pending X j o Wait1 pid)) i)%nat)
+    by (intros; apply (rank_pending s i j o Hl); [assumption|rewrite Hp; cbn; lia]).
+  assert (Henq : forall s0 pid m, ops s0 = ops s ->
+     (prank s i <= prank (fst (match send s0 m with Some s1 => pending s1 j o Wait1 pid | None => finish s0 j o RErrExited end)) i)%nat).
+  { intros s0 pid m H0. destruct (send s0 m) as [s1|] eqn:Es; [apply P; rewrite (ops_send _ _ _ Es); exact H0|apply F; exact H0]. }
+  destruct (o_kind o) as [po|so|uo| |d].
+  - destruct (po_qos po =? 0).
+    + destruct (enc_publish po 0); [apply Henq|apply F|apply F]; reflexivity.
+    + destruct (alloc_pid (pid_ctr s)) as [pid ctr]. destruct (enc_publish po pid); [apply Henq|apply F|apply F]; reflexivity.
+  - destruct (alloc_pid (pid_ctr s)) as [pid ctr]. destruct (alloc_subid (sub_ctr s)) as [sid sctr].
+    destruct (enc_subscribe so pid sid); [|apply F; reflexivity|apply F; reflexivity].
+    match goal with |- context [send ?s0 ?m] => destruct (send s0 m) as [s1|] eqn:Es end; [apply P; rewrite (ops_send _ _ _ Es); reflexivity|apply F; reflexivity].
+  - destruct (alloc_pid (pid_ctr s)) as [pid ctr]. destruct (enc_unsubscribe uo pid); [apply Henq|apply F|apply F]; reflexivity.
+  - apply Henq; reflexivity.
+  - destruct (enc_disconnect d); [apply Henq|apply F|apply F]; reflexivity.
+Qed.
+Lemma poll_wait1_rank s i j o : alookup j (ops s) = Some o -> o_phase o = Wait1 ->
+  (prank s i <= prank (fst (poll_wait1 s j o)) i)%nat.
+Proof.
+  intros Hl Hp. unfold poll_wait1.
+  assert (F : forall X r, ops X = ops s -> (prank s i <= prank (fst (finish X j o r)) i)%nat) by (intros; apply (rank_finish s i j o Hl); assumption).
+  destruct (o_ch1 o) as [|v|]; [cbn [fst]; lia| |].
+  - destruct (o_kind o) as [po|so|uo| |d]; destruct v as [|p| |]; try (apply F; try apply ops_drop_recv; reflexivity);
+      try (destruct (rk p); apply F; reflexivity).
+    destruct (po_qos po =? 1); destruct (rk p); try (apply F; reflexivity);
+      try (destruct (128 <=? r_reason p); apply F; reflexivity).
+    destruct (128 <=? r_reason p); [apply F; reflexivity|].
+    match goal with |- context [send ?s0 ?m] => destruct (send s0 m) as [s1|] eqn:Es end.
+    + apply (rank_pending s i j o Hl); [exact (ops_send _ _ _ Es)|rewrite Hp; cbn; lia].
+    + apply F. reflexivity.
+  - destruct (o_kind o); apply F; try apply ops_drop_recv; reflexivity.
+Qed.
+Lemma poll_wait2_rank s i j o : alookup j (ops s) = Some o ->
+  (prank s i <= prank (fst (poll_wait2 s j o)) i)%nat.
+Proof.
+  intros Hl. unfold poll_wait2.
+  assert (F : forall X r, ops X = ops s -> (prank s i <= prank (fst (finish X j o r)) i)%nat) by (intros; apply (rank_finish s i j o Hl); assumption).
+  destruct (o_ch2 o) as [|v|]; [cbn [fst]; lia| |apply F; reflexivity].
+  destruct v as [|p| |]; try (apply F; reflexivity). destruct (rk p); apply F; reflexivity.
+Qed.
+Lemma poll_op_rank s i j : (prank s i <= prank (fst (poll_op s j)) i)%nat.
+Proof.
+  unfold poll_op. destruct (alookup j (ops s)) as [o|] eqn:El; [|cbn [fst]; lia].
+  destruct (o_phase o) eqn:Ep; [apply first_poll_rank|apply poll_wait1_rank|apply poll_wait2_rank|cbn [fst]; lia]; assumption.
+Qed.
+
+Theorem step_rank s e i : Uniq s -> no_restart i e -> (prank s i <= prank (fst (step s e)) i)%nat.
+Proof.
+  intros Hu Hn. unfold step. cbv zeta. set (s0 := begin_ev s).
+  assert (Hc0 : prank s0 i = prank s i) by reflexivity.
+  assert (Hsame : forall s1, phases s1 = phases s0 -> (prank s i <= prank s1 i)%nat).
+  { intros s1 H. rewrite (prank_phases _ _ i H), Hc0. lia. }
+  destruct e; cbn [no_restart] in Hn; cbn [fst].
+  - destruct (negb (ctx_alive s0)); cbn [fst]; apply Hsame; [reflexivity|apply phases_start_conn].
+  - destruct (negb (ctx_alive s0)); cbn [fst]; apply Hsame; [reflexivity|apply phases_start_conn].
+  - destruct (negb (ctx_alive s0)); cbn [fst]; apply Hsame; [reflexivity|apply phases_start_run].
+  - destruct b; cbn [fst]; apply Hsame; rewrite phases_settle; reflexivity.
+  - apply Hsame. rewrite phases_settle. reflexivity.
+  - apply Hsame. rewrite phases_settle. reflexivity.
+  - apply Hsame. reflexivity.
+  - apply Hsame. reflexivity.
+  - destruct (memN h (handles s0)); cbn [fst]; [|apply Hsame; reflexivity].
+    match goal with |- (_ <= prank ?X i)%nat => assert (E : prank X i = prank s0 i) end.
+    { unfold prank. cbn [put_op ops set_ops]. rewrite alookup_aset_other by (intros E; apply Hn; symmetry; exact E). reflexivity. }
+    rewrite E, Hc0. lia.
+  - pose proof (poll_op_rank s0 i i0) as Hp. destruct (poll_op s0 i0) as [s1 o]. cbn [fst] in *.
+    rewrite (prank_phases _ _ i (phases_settle s1)). lia.
+  - rewrite (prank_phases _ _ i (phases_settle _)). unfold drop_op.
+    destruct (alookup i0 (ops s0)) as [o|] eqn:El; [|lia].
+    assert (Hle : forall X, ops X = ops s0 -> (prank s0 i <= prank (set_ops X (aremove i0 (ops X))) i)%nat).
+    { intros X HX. unfold prank. cbn [ops set_ops]. rewrite HX. destruct (N.eq_dec i i0) as [->|Hne].
+      - destruct (aremove_keys i0 (ops s0) Hu) as (_ & K2 & _). rewrite K2. destruct (alookup i0 (ops s0)) as [o0|]; [destruct (o_phase o0); cbn; lia|lia].
+      - rewrite alookup_aremove_other by exact Hne. lia. }
+    rewrite <- Hc0. destruct (o_kind o); try (apply Hle; reflexivity).
+    destruct (match alookup i0 (streams s0) with Some st => negb (st_taken st) | None => false end); apply Hle; [apply ops_drop_recv|reflexivity].
+  - destruct (alookup i0 (streams s0)) as [st|]; [|apply Hsame; reflexivity].
+    destruct (op_phase_of s0 i0) as [[| | |]|]; try (apply Hsame; reflexivity).
+    destruct (st_recv st && negb (st_taken st)); cbn [fst]; apply Hsame; reflexivity.
+  - assert (Hph : phases (fst (poll_stream s0 j)) = phases s0).
+    { unfold poll_stream. destruct (alookup j (streams s0)) as [st|]; [|reflexivity].
+      destruct (negb (st_taken st)); [reflexivity|]. destruct (st_buf st); [destruct (st_sender st)|]; reflexivity. }
+    destruct (poll_stream s0 j) as [s1 o]. cbn [fst] in *. apply Hsame. rewrite phases_settle. exact Hph.
+  - assert (Hd : phases (set_streams (drop_recv s0 j) (aremove j (streams (drop_recv s0 j)))) = phases s0).
+    { unfold phases. cbn [ops set_streams]. rewrite ops_drop_recv. reflexivity. }
+    destruct (op_phase_of s0 j) as [[| | |]|]; cbn [fst]; apply Hsame; rewrite phases_settle; assumption || reflexivity.
+  - destruct (memN h (handles s0) && negb (memN h2 (handles s0))); cbn [fst]; apply Hsame; reflexivity.
+  - apply Hsame. rewrite phases_settle. reflexivity.
+  - apply Hsame. apply phases_drop_ctx.
+  - apply Hsame. reflexivity.
+  - apply Hsame. rewrite phases_settle. reflexivity.
+  - destruct (ctx_alive s0); cbn [fst]; apply Hsame; reflexivity.
+  - apply Hsame. reflexivity.
+  - contradiction.
+Qed.
+Theorem phases_forward evs : forall s i, OI s -> Forall (no_restart i) evs -> (prank s i <= prank (final_state s evs) i)%nat.
+Proof.
+  induction evs as [|e evs IH]; intros s i HI Hf; cbn [final_state]; [lia|].
+  inversion Hf as [|? ? He Hr]; subst.
+  pose proof (step_rank s e i (proj2 HI) He) as H1. pose proof (IH (fst (step s e)) i (OI_step s e HI) Hr) as H2. lia.
+Qed.
